@@ -6,12 +6,14 @@ use common::Rng;
 fn run_hist(rt: &tokio::runtime::Runtime, h: hist::Hist, out: &mut common::Out) {
     let mut w = exec::World::new(h);
     let obs = rt.block_on(w.run());
+    if std::env::var("SV_KEEP").is_ok() { eprintln!("kept {:?}", w.keep()); }
     out.case(&w.h.show(), &obs.join(" ; "));
     out.flush();
 }
 
 fn main() {
     if std::env::var("SV_PANICS").is_err() { common::silence_panics(); }
+    if std::env::var("SV_TRACE").is_ok() { tracing_subscriber::fmt().with_env_filter(tracing_subscriber::EnvFilter::new(std::env::var("SV_TRACE").unwrap())).with_writer(std::io::stderr).init(); }
     let a = common::args();
     let mut out = common::Out::new();
     let rt = tokio::runtime::Builder::new_multi_thread().worker_threads(2).enable_all().build().unwrap();
@@ -22,7 +24,7 @@ fn main() {
         return;
     }
     let thorough = a.tier == "thorough";
-    let n: usize = std::env::var("SV_HISTORIES").ok().and_then(|x| x.parse().ok()).unwrap_or(if thorough { 400 } else { 60 });
+    let n: usize = std::env::var("SV_HISTORIES").ok().and_then(|x| x.parse().ok()).unwrap_or(if thorough { 600 } else { 150 });
     let mut rng = Rng::new(a.seed ^ (a.prop.bytes().fold(0u64, |x, b| x * 131 + b as u64)));
     for _ in 0..n {
         let mut r = rng.fork();
